@@ -47,20 +47,20 @@ TEXT = {
     ),
     "C09": dict(
         technique="property-based testing (rapid arrival patterns) on a virtual clock; deadline windows as oracle",
-        level_text="Exploration: silence / late / answered / steady inbound patterns for N in 1..120; the monitor recomputes from the inbound instants when a TestRequest must and must not be sent and when the disconnect event and handler stop must and must not happen, with windows [T, T+T/10]; in a fifth of the non-steady histories an application outgoing handler refuses every TestRequest (the attempts take the probes' place: a peer silent for a second period is disconnected all the same); for the acceptor a quarter of the histories run the pattern in a second logon on the same connection, and a sixth continue after an answered Logout with the connection left open.",
+        level_text="Exploration: silence / late / answered / steady inbound patterns for N in 1..120; the monitor recomputes from the inbound instants when a TestRequest must and must not be sent and when the disconnect event and handler stop must and must not happen, with windows [T, T+T/10]; in a fifth of the non-steady histories an application outgoing handler refuses every TestRequest (the attempts take the probes' place: a peer silent for a second period is disconnected all the same); for the acceptor a quarter of the histories run the pattern in a second logon on the same connection, and a sixth continue after an answered Logout with the connection left open (or after a local Logout() the peer never answers). A second engine runs the session on the real Acceptor/Initiator with a write timeout much shorter than the interval and a peer that is never silent for N seconds: never probed, never disconnected.",
         level_note="Trusted: synctest's virtual time. Socket closing is observed in C13's full rig, not here.",
         design_ref="DESIGN.md section 4, C09",
     ),
     "C10": dict(
         technique="stateful property-based testing (rapid): recorded first transmissions as reference model for retransmissions; small-number enumeration of (stored, received) Logon sequence numbers",
-        level_text="Exploration: outbound prefixes of mixed administrative and application messages followed by ResendRequests over all range classes; emitted retransmissions are compared byte for byte with the recorded first transmission of the same number, must lie in the requested range and must be complete for ranges inside the sent range (e=0: through the last). A second engine checks the gap ResendRequest on Logon for (c,r) pairs against a preset counter store, a third one lets a real earlier logon (traffic while probing, local or peer logout, or a dropped connection) leave the expected number behind and then logs on again on the same connection or as a new session on the same stores. Engine 1 also runs with an application handler that stamps messages, with a message store that keeps messages per StorageID identity, and on stores re-used after a counter reset.",
+        level_text="Exploration: outbound prefixes of mixed administrative and application messages followed by ResendRequests over all range classes; emitted retransmissions are compared byte for byte with the recorded first transmission of the same number, must lie in the requested range and must be complete for ranges inside the sent range (e=0: through the last). A second engine checks the gap ResendRequest on Logon for (c,r) pairs against a preset counter store, a third one lets a real earlier logon (traffic while probing, local or peer logout, or a dropped connection) leave the expected number behind and then logs on again on the same connection or as a new session on the same stores. Engine 1 also runs with an application handler that stamps messages, with a message store that keeps messages per StorageID identity, and on stores re-used after a counter reset; the gap engine also covers Logons with ResetSeqNumFlag and an incoming counter reset by the application.",
         level_note="Trusted: synctest and the recorder. Known finding resend-wrong:reused-object (application reuses a message object) is reported as KNOWN-FINDING; all other mismatches are violations.",
         design_ref="DESIGN.md section 4, C10",
     ),
     "C11": dict(
         technique="property-based fuzzing (rapid): unstructured and structure-aware hostile inputs, framed by an independent assembler so that they pass the integrity check; oracle: returns without panic within a watchdog",
         level_text="Exploration: raw byte strings of eight classes and correctly framed hostile token lists (random, and near-valid populations with token-level damage) are parsed into generated nested-group templates and every tests/fix44 type by both entry points, and looked up with fix.ValueByTag, with slices presented capacity-clamped and as prefixes of larger buffers.",
-        level_note="Trusted: recover() observes every panic on the calling goroutine; a 60 s per-call watchdog defines 'hang'. The session engine hands correctly framed admin messages with token-level damage and extreme numbers (MinInt64..MaxUint64, signs, leading zeros, exponents) to a running session in every state reached by well-formed traffic and local Logout()/Send() calls in between; the transport engine feeds hostile chunks through the real Acceptor and Initiator and requires the serving call to return afterwards.",
+        level_note="Trusted: recover() observes every panic on the calling goroutine; a 60 s per-call watchdog defines 'hang'. The session engine hands correctly framed admin messages with token-level damage and extreme numbers (MinInt64..MaxUint64, signs, leading zeros, exponents) to a running session in every state reached by well-formed traffic and local Logout()/Send() calls in between; the transport engine feeds hostile chunks through the real Acceptor and Initiator and requires the serving call to return afterwards (no goroutine of the inbound path may remain); BodyLengths far from the real length are declared in the framed and session engines.",
         design_ref="DESIGN.md section 4, C11",
     ),
     "C14": dict(
@@ -71,14 +71,14 @@ TEXT = {
     ),
     "C15": dict(
         technique="property-based testing (rapid) on a virtual clock: Logout counts and the exact instant of context cancellation",
-        level_text="Exploration: peer logout, local logout + answer, and Stop with close timeout {0,1ms,1s,30s} x answer {never, immediately, half, just before, after the deadline} with traffic in between; the cancellation instant is compared to the nanosecond with min(answer, deadline). A quarter of the local endings come while the session's own TestRequest is unanswered (peer silent for N+tolerance); between a local Logout()/Stop() and the answer the peer may ask for a resend of everything, which must not bring the Logout out again; a Stop() whose Logout is refused by an application handler still ends at the deadline, and a peer Logout is answered although the counter store fails.",
+        level_text="Exploration: peer logout, local logout + answer, and Stop with close timeout {0,1ms,1s,30s} x answer {never, immediately, half, just before, after the deadline} with traffic in between; the cancellation instant is compared to the nanosecond with min(answer, deadline). A quarter of the local endings come while the session's own TestRequest is unanswered (peer silent for N+tolerance); between a local Logout()/Stop() and the answer the peer may ask for a resend of everything, which must not bring the Logout out again; a Stop() whose Logout is refused by an application handler still ends at the deadline, a peer Logout is answered although the counter store fails, and an answer followed at once by the connection's end still ends the wait while the handler is busy.",
         level_note="Trusted: synctest's virtual time; intervals >= 40 s keep the session timers out of these histories.",
         design_ref="DESIGN.md section 4, C15",
     ),
     "C16": dict(
         technique="table-driven property-based testing (rapid surroundings around an enumerated (type, damage, state) table); REF-assembled damaged messages",
         level_text="Exploration: each cell of {5 admin types} x {8 kinds of invalidity} x {4 states: waiting, logged on, after logout, logged on with the session's own TestRequest unanswered} is drawn with generated surroundings; exactly one Reject referencing the offender, IsLogged unchanged, nothing stopped, next valid message handled normally.",
-        level_note="Trusted: synctest and harness/ref (which produces exactly the intended damage). Non-numeric fields include the count fields of repeating groups (NoHops in the header, NoMsgTypes in a Logon). The valid traffic that follows may include a ResendRequest for everything, which must retransmit the Reject too.",
+        level_note="Trusted: synctest and harness/ref (which produces exactly the intended damage). Non-numeric fields include the count fields of repeating groups (NoHops in the header, NoMsgTypes in a Logon). The valid traffic that follows may include a ResendRequest for everything, which must retransmit the Reject too. Further damage kinds: CheckSum not written as three digits, BodyLength far from any real length, a non-numeric field inside a header group entry, look-alike 34= texts.",
         design_ref="DESIGN.md section 4, C16",
     ),
     "C18": dict(
@@ -107,7 +107,7 @@ TEXT = {
     ),
     "C13": dict(
         technique="fault enumeration: complete cross product of termination causes x injection points x in-flight traffic over fixed script families, plus rapid-drawn scripts and timings; virtual-clock termination oracle and own goroutine-leak detection inside the synctest bubble",
-        level_text="Fault enumeration: every (script family, role, buffer size, cause, in-flight shape) tuple is executed on every run, and rapid adds drawn scripts/timings; after a bounded virtual settling time the socket must be closed, the serving call returned, the passive side notified, parked and later sends returned, and no goroutine with a library frame may remain in the bubble (read from runtime.Stack, filtered to the bubble). Drawn scripts may start with a Logon the acceptor refuses. A case that never finishes (60 s wall-clock watchdog) is a violation with the case saved.",
+        level_text="Fault enumeration: every (script family, role, buffer size, cause, in-flight shape) tuple is executed on every run, and rapid adds drawn scripts/timings; after a bounded virtual settling time the socket must be closed, the serving call returned, the passive side notified, parked and later sends returned, and no goroutine with a library frame may remain in the bubble (read from runtime.Stack, filtered to the bubble). Drawn scripts may start with a Logon the acceptor refuses. The initiator's first write may fail, a burst may be buffered in the reader when the cause strikes (the application may stop the handler from inside its own handler), and an ended connection's goroutines must be gone before the acceptor itself is closed. A case that never finishes (60 s wall-clock watchdog, confirmed by two replays) is a violation with the case saved.",
         level_note="Trusted: synctest's notion of durable blocking, netsim's fault injection, runtime.Stack. Limits: one parked sender at most; blocked-write expiry is scripted; kernel socket behaviours are represented only by the error/closure classes netsim implements.",
         design_ref="DESIGN.md section 4, C13",
     ),
